@@ -78,6 +78,17 @@ def gen_formulas(rng, alpha):
     return rng.sample(pool, rng.randint(1, 3))
 
 
+def foreign_formulas(rng, alpha, syl):
+    """formulas whose output uses a character that occurs in NO syllable (e.g. xform/ing$/;/): the prism's
+    alphabet must come from the spellings, not the syllabary, for ExpandSearch to follow such characters"""
+    f = rng.choice([c for c in "zyxwv;" if c not in alpha])
+    w = rng.choice(syl)
+    c = rng.choice(alpha)
+    pool = ["xform/%s$/%s/" % (w[-1], f), "derive/^%s/%s/" % (w[0], f), "xform/%s/%s/" % (c, f),
+            "derive/%s$/%s%s/" % (w[-1], f, f), "derive/^(.)/%s$1/" % f]
+    return rng.sample(pool, rng.randint(1, 2))
+
+
 def gen_script(rng, alpha, syl):
     """hand-made Script: arbitrary key -> [(syllable, type, credibility)]"""
     pool = ["".join(t) for l in (1, 2, 3) for t in itertools.product(alpha, repeat=l)]
@@ -150,7 +161,11 @@ def gen_cases(seed, tier):
         if kind == "S":
             line = "S " + " ".join(syl)
         elif kind == "A":
-            line = "A " + " ".join(syl) + " | " + " | ".join(gen_formulas(rng, alpha))
+            fs = gen_formulas(rng, alpha)
+            if i % 2 == 1:
+                fs = foreign_formulas(rng, alpha, syl) + fs[:1]
+                tags = tags + ["foreign-char-algebra"]
+            line = "A " + " ".join(syl) + " | " + " | ".join(fs)
         else:
             items = gen_script(rng, alpha, syl)
             if "'" in delims and i % 4 == 2:
@@ -163,6 +178,10 @@ def gen_cases(seed, tier):
             bound += 1
         specs.append(dict(idx=i, kind=kind, line=line, alpha=alpha, delims=delims, bound=bound, tags=tags,
                           nrandom=(60 if tier == "quick" else 400), iseed=rng.getrandbits(32)))
+    # fixed corpus: an algebra that introduces a character found in no syllable (`;`), so that one remainder (`x`)
+    # begins both a plain spelling (xia) and a spelling with the foreign character (x;)
+    specs.append(dict(idx=nprisms, kind="A", line="A ba ding xia xing | xform/ing$/;/", alpha="abdginx", delims="'",
+                      bound=2, tags=["corpus:foreign-char-algebra"], nrandom=40, iseed=rng.getrandbits(32)))
     return specs
 
 
@@ -225,7 +244,7 @@ def same_line(impl, model):
 
 # clauses that go beyond the property's text (choices of the code): they never make a failing input on their
 # own; they are listed with a correspondence violation as a hint
-SOFT = {"empty-input", "input_length", "return-value", "interpreted_length:completion-missing",
+SOFT = {"empty-input", "input_length", "return-value",
         "edge:empty-spelling-map", "edge:completion-not-exact", "edge:completion-type-policy",
         "edge:trailing-delimiters-not-maximal", "edge:type", "edge:end_pos", "edge:is_correction",
         "edge:from-unretained-vertex", "edge:into-unretained-vertex", "normal-tiling:edge-type",
@@ -276,6 +295,11 @@ def oracle(M, delims, comp, strict, s, g):
     if il != F:
         if not (comp and F < n and il == n and begins):
             bad.append("interpreted_length:not-longest-tilable-prefix")
+    # the converse direction, computed from the KEY SET alone (the finite map read back through GetValue /
+    # QuerySpelling - never from the prism's own ExpandSearch): completion enabled, the remainder begins a stored
+    # spelling with a normal or fuzzy reading, yet the graph is not extended.  The code promises this only for the
+    # first 512 expansions in breadth-first order, so the clause is evaluated for prisms of <= 512 spellings
+    # (every generated prism), where that rule cannot bite.
     if completable and il != n and len(M) <= 512:
         bad.append("interpreted_length:completion-missing")
     if il < n:
@@ -297,8 +321,10 @@ def oracle(M, delims, comp, strict, s, g):
                     elif endp != e or not any(d[0] == sid and d[1] < 2 for k in begins for d in M[k]):
                         bad.append("edge:completion-type-policy")
                 want = {d[0] for k in begins for d in M[k] if d[1] < 2}
-                if set(sm) != want and len(M) <= 512:
-                    bad.append("edge:completion-not-exact")
+                if (want - set(sm)) and len(M) <= 512:
+                    bad.append("edge:completion-syllable-missing")     # a syllable the key set demands is absent
+                elif set(sm) != want and len(M) <= 512:
+                    bad.append("edge:completion-not-exact")            # extra syllables: the code's choice (soft)
                 continue
             if not (st < e <= n):
                 bad.append("edge:span")
@@ -442,12 +468,19 @@ def run_chunk(args):
             res["errors"].append(dict(what="a key of the script is missing from the built prism", spec=sp["line"], dump=pl))
             continue
         rng = random.Random(sp["iseed"])
-        symbols = sp["alpha"] + sp["delims"]
+        foreign = "".join(sorted({c for k in keys for c in k} - set(sp["alpha"]) - set(sp["delims"])))
+        symbols = sp["alpha"] + foreign + sp["delims"]
+        budget = 1400 if tier == "quick" else 16000
+        bound = 1
+        while sum(len(symbols) ** l for l in range(bound + 2)) <= budget and bound < 8:
+            bound += 1
+        sp = dict(sp, bound=bound, foreign=foreign)
         inputs = gen_inputs(rng, symbols, sp["bound"], keys, sp["delims"], sp["nrandom"], 24)
         in_domain = all(not any(c in sp["delims"] for c in k) for k in keys) and all(
             d[1] <= 2 for ds in M.values() for d in ds)
         res["prisms"].append(dict(idx=sp["idx"], line=sp["line"], built=True, spellings=len(M), inputs=len(inputs),
-                                  exhaustive_to=sp["bound"], delims=sp["delims"], alphabet=sp["alpha"], tags=sp["tags"]))
+                                  exhaustive_to=sp["bound"], delims=sp["delims"], alphabet=sp["alpha"],
+                                  chars_in_no_syllable=sp["foreign"], tags=sp["tags"]))
         dl = "D " + hx(sp["delims"])
         feed_impl += [sp["line"], dl]
         feed_model += [pl, dl]
@@ -642,9 +675,20 @@ MUTATION_DRILLS = [
               "oracle:normal-tiling:edge-missing, oracle:vertex:not-on-a-path; 3444 graphs differ from the model"},
     {"id": "M6", "mutation": "pruning pass: vertex test `graph->vertices[i] > last_type ||` dropped",
      "fired": "VIOLATION with failing input 'nwk': oracle:vertex:not-on-a-path; 152 graphs differ from the model"},
+    {"id": "M8", "mutation": "src/rime/dict/prism.cc, Prism::Build: the stored alphabet is collected from the SYLLABARY instead of "
+                             "from all spellings (ExpandSearch of a loaded prism then never follows a character that an algebra "
+                             "introduced, e.g. `;` of xform/ing$/;/)",
+     "fired": "VIOLATION with failing inputs: oracle:interpreted_length:completion-missing (prism `A g gg ggg gn gnng n ng nggn ngn | "
+              "xform/g/x/ | derive/^n/x/ | erase/^n$/`, completion on, input 'n': il=0 although the remainder begins a stored "
+              "spelling with a normal reading) and oracle:edge:completion-syllable-missing (corpus prism `A ba ding xia xing | "
+              "xform/ing$/;/`, input 'x': the completion edge carries xia's syllable but not xing's); 459 graphs differ from the "
+              "model.  Before this drill both clauses were soft and the change surfaced only as correspondence:c08.",
+     "note": "the completion clauses are evaluated from the key set read back through GetValue/QuerySpelling, never through the "
+             "prism's ExpandSearch; prisms have <= 512 spellings so the first-512 rule cannot bite"},
     {"id": "M7", "mutation": "completion accepts abbreviations: `if (props.type < kAbbreviation)` -> `<=`",
      "fired": "VIOLATION ... no-failing-input-found: correspondence:c08, 579 graphs differ (the property does not restrict which "
-              "spellings complete; soft clauses edge:completion-type-policy / completion-not-exact)"},
+              "spellings complete beyond the normal/fuzzy ones; soft clauses edge:completion-type-policy / completion-not-exact: "
+              "extra syllables on the completion edge are the code's choice, missing ones are a property failure - see M8)"},
 ]
 
 MANIFEST = {
